@@ -30,6 +30,7 @@ PIECES = [
     "#straße:\x85 x\u2028;",
     "#NOTES:a:b:c:d:e:f;",
     "#NOTES: a :b:c:d:e: f :g:h;",
+    "#NOTES:\u3000a\xa0:b\x1c:c:\x85d:e:\u2028f\x0b:\u3000g;",
     "#NOTES:a:b;",
     "#NOTEDATA:;",
     "#STEPSTYPE:x;",
@@ -76,7 +77,7 @@ def expected_observation(model, multi_none_as_empty=False):
     out = {"type": "SMSimfile" if model["type"] == "sm" else "SSCSimfile", "items": list(items), "charts": []}
     for c in model["charts"]:
         if model["type"] == "sm":
-            out["charts"].append({"fields": list(c["fields"]), "keys": list(M.SM_FIELDS), "extra": c["extra"]})
+            out["charts"].append({"fields": list(c["fields"]), "keys": list(c.get("key_order") or M.SM_FIELDS), "extra": c["extra"]})
         else:
             out["charts"].append({"items": list(c["items"])})
     return out
